@@ -45,6 +45,7 @@ type Event struct {
 	Loops   []LoopRef
 	Seq     int
 	Note    string
+	Mem     *Mem // for "return" events: the abstract memory at that return
 }
 
 // LoopRef names a loop (frame + header block) an event is nested in.
@@ -68,6 +69,8 @@ type Interp struct {
 	// Pure lists non-module functions without effects on their pointer arguments.
 	Pure  func(name string) bool
 	Steps int
+	// OnStore, when set, is called for every store with a resolved pointer.
+	OnStore func(fr *Frame, site ssa.Instruction, ptr, val *Term)
 }
 
 // Frame is one (inlined) function activation.
@@ -625,7 +628,7 @@ func (fr *Frame) evalPass(m0 *Mem) {
 				fr.reach[b] = True
 			} else {
 				r := Or(fw...)
-				if len(r.Key()) > 1500 {
+				if len(r.Key()) > 8000 {
 					r = Atom(fmt.Sprintf("reach#%s#%d", fr.ID, b), types.Typ[types.Bool])
 					// keep what the immediate dominator already guarantees
 					if d := blk.Idom(); d != nil && fr.reach[d.Index] != nil {
@@ -975,7 +978,9 @@ func (fr *Frame) execBlock(blk *ssa.BasicBlock, mem *Mem) {
 			}
 			fr.memOut[b] = mem
 			fr.rets = append(fr.rets, retInfo{guard: fr.reach[b], val: val, mem: mem, block: b})
-			in.Emit(fr, "return", x, "", []*Term{val}, nil)
+			if rev := in.Emit(fr, "return", x, "", []*Term{val}, nil); rev != nil {
+				rev.Mem = mem
+			}
 			return
 		case *ssa.Panic:
 			fr.panics++
@@ -1330,6 +1335,9 @@ func (in *Interp) storePtr(fr *Frame, site ssa.Instruction, m *Mem, a, v *Term) 
 		a = Ptr(in.Obj("deref:"+a.Key(), "deref", nil), nil)
 	}
 	o, p := a.Obj, a.Path
+	if in.OnStore != nil && fr != nil {
+		in.OnStore(fr, site, a, v)
+	}
 	if o.Kind == "global" && fr != nil {
 		in.Emit(fr, "globalwrite", site, o.ID, []*Term{v}, nil)
 	}
@@ -1379,6 +1387,9 @@ func (in *Interp) havoc(fr *Frame, site ssa.Instruction, m *Mem, args []*Term) {
 		})
 	}
 }
+
+// Havoc forgets everything reachable through pointer arguments (exported for hooks).
+func (in *Interp) Havoc(fr *Frame, site ssa.Instruction, m *Mem, args []*Term) { in.havoc(fr, site, m, args) }
 
 // ---- calls ----
 
